@@ -33,6 +33,27 @@ def grid_of(piece_tracks):
     return ts, ks
 
 
+def zero_length_on_barline(tracks):
+    """D18b: some track holds a note whose on and off share a tick that is a bar start of the piece"""
+    ts, _ = grid_of(tracks)
+    end = max([rel_timed(t)[1] for t in tracks] + [0])
+    starts, start, cur = set(), 0, (4, 4)
+    while start <= end:
+        for (t, v) in ts:
+            if t <= start:
+                cur = v
+        starts.add(start)
+        step = 96 * cur[0] // cur[1]
+        if step <= 0:
+            break
+        start += step
+    for t in tracks:
+        timed, _ = rel_timed(t)
+        if any(on == off and on in starts for (_, _, on, off, _) in notes_of(timed)):
+            return True
+    return False
+
+
 def o_split_bars(inp):
     from scoda.sequences.sequence import Sequence
     tracks = [[tuple(m) for m in t] for t in inp["tracks"]]
@@ -110,12 +131,22 @@ def o_split_bars(inp):
     return fails
 
 
+D18B_EXAMPLE = {"requant": False, "tracks": [[G.pm(WAIT, 0, 96), G.pm(ON, 0, None, note=60, vel=64), G.pm(OFF, 0, None, note=60),
+                                               G.pm(WAIT, 0, 10), G.pm(ON, 0, None, note=60, vel=64), G.pm(WAIT, 0, 10),
+                                               G.pm(OFF, 0, None, note=60), G.pm(WAIT, 0, 5)]]}
+
+
 def setup(ctx):
     ctx.oracle("split_bars", o_split_bars)
+
+    def kf_d18b(f):
+        return f["clause"] in ("sound-exact", "sound-subset") and zero_length_on_barline([[tuple(m) for m in t] for t in f["input"]["tracks"]])
+    ctx.kf_predicates["D18b"] = kf_d18b
 
 
 def generate(ctx):
     rng = ctx.rng
+    ctx.check("split_bars", D18B_EXAMPLE)      # the recorded instance of the known finding
     for i in range(ctx.n(120, 3000)):
         piece = G.gen_piece(rng, key_changes=True, unequal=rng.random() < 0.5, tail_ok=True, values=[6, 12, 24, 36, 48, 96, 5])
         if rng.random() < 0.35:
